@@ -1,5 +1,5 @@
 """Writer child process for C17 (run as a script with PYTHONPATH set by the parent).
-usage: pt_writer.py <export|pttempo> <file>     env: DIE_AT=<k>|before_close|none, DIE_MODE=exception|exit|hard
+usage: pt_writer.py <export|export8|export_over|export_direct|pttempo> <file>     env: DIE_AT=<k>|before_close|none, DIE_MODE=exception|exit|hard
 The library code is unmodified; dying is implemented by rebinding the module-level helper
 oqupy.process_tensor._set_data_and_shape (k-th call raises / exits) or FileProcessTensor.close from outside."""
 import os
@@ -64,6 +64,21 @@ elif mode == "export8":
 elif mode == "export_over":
     # the target already holds a complete (older) process tensor; it is replaced
     build_export_pt().export(fname, overwrite=True)
+elif mode == "export_direct":
+    # user code that fills a FileProcessTensor opened in write mode itself, (re)naming it while the file is being written
+    src = build_export_pt()
+    f = ptm.FileProcessTensor(mode="write", filename=fname, hilbert_space_dimension=2, dt=0.2,
+                              transform_in=src.transform_in, transform_out=src.transform_out, name="c17", description="direct")
+    f.name = "renamed before the first tensor"
+    for k in range(len(src)):
+        f.set_mpo_tensor(k, src.get_mpo_tensor(k, transformed=False))
+        if k == 1:
+            f.description = "described while the MPO tensors are written"
+    for k in range(len(src) + 1):
+        f.set_cap_tensor(k, src.get_cap_tensor(k))
+        if k == 2:
+            f.name = "renamed while the caps are written"
+    f.close()
 elif mode == "pttempo":
     from props import models as M
     bath = oq.Bath(0.5 * M.SX, M.ohmic(alpha=0.3, temperature=0.3))
